@@ -204,12 +204,42 @@ def _classify_apply_failure(e: BaseException) -> str:
     return "transform"
 
 
+class _Collect(logging.Handler):
+    """keeps what the library logs (WARNING and above) while one translation runs: what a translation tells its
+    caller besides the files — e.g. the `assuming ... has return type 'double'` warning"""
+
+    def __init__(self):
+        super().__init__(level=logging.WARNING)
+        self.lines: List[str] = []
+
+    def emit(self, record):
+        try:
+            self.lines.append(f"{record.name}:{record.levelname}:{record.getMessage()}")
+        except Exception:  # noqa
+            self.lines.append(f"{record.name}:{record.levelname}:<unformattable>")
+
+
+def _collector() -> _Collect:
+    root = logging.getLogger()
+    for h in root.handlers:
+        if isinstance(h, _Collect):
+            return h
+    logging.disable(logging.NOTSET)
+    for h in list(root.handlers):
+        root.removeHandler(h)
+    logging.lastResort = None
+    h = _Collect()
+    root.addHandler(h)
+    root.setLevel(logging.WARNING)
+    return h
+
+
 class Process:
     """One interpreter's worth of func_adl_xAOD state (the module globals are THE process state: there is
     one `Process` per interpreter, creating a second one does not give a second state)."""
 
     def __init__(self):
-        logging.disable(logging.CRITICAL)
+        self.log = _collector()
         import func_adl_xAOD.common.cpp_types as ctyp
         import func_adl_xAOD.common.cpp_vars as cvars
         from func_adl_xAOD.atlas.xaod.executor import atlas_xaod_executor
@@ -268,6 +298,7 @@ class Process:
         a = build_ast(q, md)
         c0 = self.cvars.unique_var_index
         self._rec_keys, self._rec_names = [], []
+        self.log.lines = []
         d = Path(tempfile.mkdtemp(prefix="c07_"))
         try:
             try:
@@ -299,6 +330,7 @@ class Process:
             "files": files,
             "keys": [list(k) for k in keys],
             "names": names,
+            "log": list(self.log.lines),
         }
 
     def probe(self, p: Dict[str, Any]) -> Dict[str, Any]:
@@ -402,7 +434,7 @@ def serve():
     child forked from this process, which has imported the package and has never translated anything: the child
     starts from exactly the state of a newly started interpreter (without paying for the imports again), and what
     it does is gone when it exits."""
-    logging.disable(logging.CRITICAL)
+    _collector()
     import func_adl_xAOD.atlas.xaod.executor  # noqa
     import func_adl_xAOD.cms.aod.executor  # noqa
     import func_adl_xAOD.cms.miniaod.executor  # noqa
